@@ -255,9 +255,21 @@ class MCSimulationWithJumpTimes(MCSimulation, SimulationWithJumpTimes):
         )
         return MarkovChain(jump_times, values, all_states_increments)
 
+    @staticmethod
+    def running_sum_over_the_dates(all_values) -> np.array:
+        """The chain is simulated from the origin in every date interval: carry the level reached at the end of an
+        interval over to the next one, so that the path holds the running sum of all the jumps up to each jump time."""
+        level, parts = 0.0, []
+        for slice_values in all_values:
+            slice_values = np.asarray(slice_values, dtype=float)
+            if slice_values.size:
+                parts.append(level + slice_values)
+                level = parts[-1][-1]
+        return np.concatenate(parts) if parts else np.empty(shape=0, dtype=float)
+
     def simulate_jumps(self):
         mc = self.simulate_markov_chain()
-        jump_values = np.concatenate(mc.values).ravel().astype(float)
+        jump_values = self.running_sum_over_the_dates(mc.values)
         jump_times = mc.times
         return jump_times, jump_values
 
